@@ -436,8 +436,16 @@ C18Marks(r) ==
          THEN {"C18.pass_silent"} ELSE {})
 \* logging: the user's own root handler and the root level are the same at every hook outside steps (driver probes)
 C18Log(r) ==
-   LET hs == {i \in Ix(r) : Ev(r, i).k = "hook" /\ ~IsStepHook(Ev(r, i))} IN
-   IF \E i, j \in hs : ~Ev(r, i).mine \/ Ev(r, i).lvl # Ev(r, j).lvl THEN {"C18.logging_restored"} ELSE {}
+   LET hs == {i \in Ix(r) : Ev(r, i).k = "hook" /\ ~IsStepHook(Ev(r, i))}
+       \* the first hook outside scenario s after its before_scenario hook at index i (0 if none)
+       nextOutside(i) == LET c == {j \in hs : j > i /\ Ev(r, j).el # Ev(r, i).el} IN
+                         IF c = {} THEN 0 ELSE CHOOSE j \in c : \A k \in c : j <= k
+   IN
+   (IF \E i, j \in hs : ~Ev(r, i).mine \/ Ev(r, i).lvl # Ev(r, j).lvl THEN {"C18.logging_restored"} ELSE {})
+   \* after a scenario the root logger carries no more foreign (capture) handlers than before it
+   \cup (IF \E i \in hs : Ev(r, i).name = "before_scenario" /\ nextOutside(i) # 0
+                          /\ Ev(r, nextOutside(i)).nfor > Ev(r, i).nfor
+         THEN {"C18.logging_restored"} ELSE {})
 C13r(r) == C13rVis(r) \cup C13rCl(r)
 ClausesX(r) == C01(r) \cup C02(r) \cup C03(r) \cup C09(r) \cup C12(r) \cup C13r(r) \cup C18(r) \cup C18Marks(r)
 Clauses(r0) == LET r == Enrich(r0) IN ClausesX(r) \cup C12Pair(r) \cup C18Log(r0)
